@@ -82,6 +82,17 @@ func (fr *Frame) callValue(st *State, fnv Value, ft types.Type, args []Value, in
 }
 
 func (fr *Frame) callStatic(st *State, fn *ssa.Function, bind []Value, args []Value, in ssa.Instruction) (Value, error) {
+	v, err := fr.callStatic1(st, fn, bind, args, in)
+	if err == nil && fr.depth == 0 {
+		if fr.lastRet == nil {
+			fr.lastRet = map[string]Value{}
+		}
+		fr.lastRet["fn:"+fr.run.eng.fnName(fn)] = v
+	}
+	return v, err
+}
+
+func (fr *Frame) callStatic1(st *State, fn *ssa.Function, bind []Value, args []Value, in ssa.Instruction) (Value, error) {
 	r := fr.run
 	name := r.eng.fnName(fn)
 	if r.eng.specs.Funcs[name] == nil || r.eng.specs.Funcs[name].Opts["inline"] {
